@@ -331,7 +331,7 @@ func TestVerif_C12_Descriptors(t *testing.T) {
 		// not part of what a join verifies (such an invitation is accepted, so its descriptor is in scope)
 		variants := []string{"as-issued"}
 		if kind == 2 {
-			variants = []string{"as-issued", "link_key_sig-removed", "link_key_sig-emptied", "sign_pub-filled-in", "link_key-filled-in", "sign_pub-and-link_key-filled-in"}
+			variants = []string{"as-issued", "link_key_sig-removed", "link_key_sig-emptied", "sign_pub-filled-in", "link_key-filled-in", "sign_pub-and-link_key-filled-in", "sign_pub-of-somebody-else"}
 		}
 		tried := 0
 		for _, variant := range variants {
@@ -365,6 +365,11 @@ func TestVerif_C12_Descriptors(t *testing.T) {
 				case "sign_pub-and-link_key-filled-in":
 					fillSignPub()
 					fillLinkKey()
+				case "sign_pub-of-somebody-else":
+					// no signature covers the field: such an invitation is accepted as well; whatever the member then does with
+					// it, its descriptor designates the logs the member itself opens
+					_, opk, _ := crypto.GenerateEd25519Key(crand.Reader)
+					held.SignPub, _ = opk.Raw()
 				}
 				if err := held.IsValid(); err != nil {
 					rt.Fatalf("harness: the %s invitation is not accepted: %v", variant, err)
@@ -417,8 +422,12 @@ func TestVerif_C12_Descriptors(t *testing.T) {
 				}
 			}
 			// same log addresses
+			ref := g
+			if variant == "sign_pub-of-somebody-else" {
+				ref = held
+			}
 			for _, st := range []string{"wesh_group_metadata", "wesh_group_messages"} {
-				a1, e1 := defaultACForGroup(g, st)
+				a1, e1 := defaultACForGroup(ref, st)
 				a2, e2 := defaultACForGroup(d, st)
 				if e1 != nil || e2 != nil {
 					fail("address-error", "access controller: %v / %v", e1, e2)
@@ -435,7 +444,7 @@ func TestVerif_C12_Descriptors(t *testing.T) {
 			if e1 != nil || e2 != nil || *l1 != *l2 {
 				fail("link-key-differs", "descriptor link key differs (%v %v)", e1, e2)
 			}
-			p1, _ := g.GetSigningPubKey()
+			p1, _ := ref.GetSigningPubKey()
 			p2, e := d.GetSigningPubKey()
 			if e != nil || !p1.Equals(p2) {
 				fail("signing-key-differs", "descriptor names another log signing key")
